@@ -3191,18 +3191,30 @@ FILES = []      # filled below: (file name, spec) in dependency order
 
 def gen_all(repo):
     """all generated files of the translator: {file name: text}"""
-    try:
-        tr = Translator(repo); res = {}
-        for name, spec in FILES:
+    # every generated file on its own: a construct outside the accepted subset in ONE source function fails THAT file loudly (the file
+    # is replaced by a stub that does not elaborate, so every theorem depending on it is re-checked and fails); the other files - and
+    # the properties that do not depend on the failed one - are unaffected.  `GenFailed` values are turned into stubs by extract.py.
+    res = {}
+    tr = Translator(repo)     # shared: later files refer to the signatures of functions translated for earlier ones
+    for name, spec in FILES:
+        try:
             if spec.get("handler_mode"):      # phase 4e: generic butterfly network + NTTTables wrappers (tools/rs2lean_dwt.py)
                 import rs2lean_dwt
                 res[name] = rs2lean_dwt.generate(sys.modules[__name__], tr, spec)
             else: res[name] = ladder_file(tr, spec) if spec.get("ladder") else tr.run_file(spec)
-        return res
-    except Unsupported as ex: raise SystemExit("extract.py: " + str(ex))
+        except (Unsupported, SystemExit) as ex: res[name] = GenFailed(str(ex))
+        except Exception as ex: res[name] = GenFailed("translator error: %s: %s" % (type(ex).__name__, ex))
+    return res
 
 
-def gen_wordfns(repo): return gen_all(repo)["WordFns.lean"]
+class GenFailed(str):
+    """marker: generation of one file failed; the text is the message"""
+
+
+def gen_wordfns(repo):
+    r = gen_all(repo)["WordFns.lean"]
+    if isinstance(r, GenFailed): raise SystemExit("extract.py: " + r)
+    return r
 
 
 
